@@ -7,9 +7,12 @@ import (
 	// registers google.api.http, HttpBody and the well-known types in the global registry
 	_ "google.golang.org/genproto/googleapis/api/annotations"
 	_ "google.golang.org/genproto/googleapis/api/httpbody"
+	"google.golang.org/protobuf/encoding/prototext"
 	"google.golang.org/protobuf/reflect/protodesc"
 	"google.golang.org/protobuf/reflect/protoreflect"
 	"google.golang.org/protobuf/reflect/protoregistry"
+	"google.golang.org/protobuf/types/descriptorpb"
+	"google.golang.org/protobuf/types/dynamicpb"
 	_ "google.golang.org/protobuf/types/known/anypb"
 	_ "google.golang.org/protobuf/types/known/durationpb"
 	_ "google.golang.org/protobuf/types/known/emptypb"
@@ -35,6 +38,7 @@ dependency: "google/protobuf/wrappers.proto"
 dependency: "google/protobuf/any.proto"
 dependency: "google/protobuf/struct.proto"
 dependency: "google/protobuf/empty.proto"
+dependency: "verif/v1/ext.proto"
 message_type {
   name: "Msg"
   field { name: "name"    number: 1  type: TYPE_STRING label: LABEL_OPTIONAL json_name: "name" }
@@ -65,6 +69,7 @@ message_type {
   field { name: "kids"    number: 26 type: TYPE_MESSAGE label: LABEL_REPEATED type_name: ".verif.v1.Msg" json_name: "kids" }
   field { name: "swrap"   number: 27 type: TYPE_MESSAGE label: LABEL_OPTIONAL type_name: ".google.protobuf.StringValue" json_name: "swrap" }
   field { name: "u32"     number: 28 type: TYPE_UINT32 label: LABEL_OPTIONAL json_name: "u32" }
+  field { name: "ext"     number: 29 type: TYPE_MESSAGE label: LABEL_OPTIONAL type_name: ".verif.v1.Ext" json_name: "ext" }
   nested_type {
     name: "LabelsEntry"
     field { name: "key"   number: 1 type: TYPE_STRING label: LABEL_OPTIONAL json_name: "key" }
@@ -123,14 +128,128 @@ service {
 }
 `
 
+// A proto2 file the schema imports: an extendable message and two extensions of it. Neither the file nor
+// the extension types are in the global registries (except on the supply routes that register everything,
+// as linked-in generated code would): a message that carries an extension field can be re-encoded only by
+// a codec that resolves types through the service's own resolver.
+const extSchemaText = `
+name: "verif/v1/ext.proto"
+package: "verif.v1"
+syntax: "proto2"
+message_type {
+  name: "Ext"
+  field { name: "base" number: 1 type: TYPE_STRING label: LABEL_OPTIONAL json_name: "base" }
+  extension_range { start: 100 end: 200 }
+}
+extension { name: "note"  number: 100 type: TYPE_STRING label: LABEL_OPTIONAL extendee: ".verif.v1.Ext" json_name: "note" }
+extension { name: "marks" number: 101 type: TYPE_INT32  label: LABEL_REPEATED extendee: ".verif.v1.Ext" json_name: "marks" }
+`
+
 var (
 	schemaOnce sync.Once
 	schemaFile protoreflect.FileDescriptor
+	extOnce    sync.Once
+	extFile    protoreflect.FileDescriptor
+	extFiles   *protoregistry.Files
+	extTypes   *dynamicpb.Types
 )
+
+func extSchema() protoreflect.FileDescriptor {
+	extOnce.Do(func() {
+		var fdp descriptorpb.FileDescriptorProto
+		if err := prototext.Unmarshal([]byte(extSchemaText), &fdp); err != nil {
+			panic(err)
+		}
+		fd, err := protodesc.NewFile(&fdp, protoregistry.GlobalFiles)
+		if err != nil {
+			panic(fmt.Errorf("ext schema: %w", err))
+		}
+		extFile = fd
+		extFiles = &protoregistry.Files{}
+		if err := extFiles.RegisterFile(fd); err != nil {
+			panic(err)
+		}
+		extTypes = dynamicpb.NewTypes(extFiles)
+	})
+	return extFile
+}
+
+// schemaDeps resolves the imports of the harness schema: its own proto2 file first, then the linked-in files.
+type schemaDeps struct{}
+
+func (schemaDeps) FindFileByPath(p string) (protoreflect.FileDescriptor, error) {
+	extSchema()
+	if fd, err := extFiles.FindFileByPath(p); err == nil {
+		return fd, nil
+	}
+	return protoregistry.GlobalFiles.FindFileByPath(p)
+}
+
+func (schemaDeps) FindDescriptorByName(n protoreflect.FullName) (protoreflect.Descriptor, error) {
+	extSchema()
+	if d, err := extFiles.FindDescriptorByName(n); err == nil {
+		return d, nil
+	}
+	return protoregistry.GlobalFiles.FindDescriptorByName(n)
+}
+
+// harnessTypes is what the harness's own encoders and decoders resolve types with: the extensions of the
+// proto2 file, then the linked-in types (well-known types inside Any values).
+type harnessTypes struct{}
+
+func (harnessTypes) FindMessageByName(n protoreflect.FullName) (protoreflect.MessageType, error) {
+	extSchema()
+	if t, err := extTypes.FindMessageByName(n); err == nil {
+		return t, nil
+	}
+	return protoregistry.GlobalTypes.FindMessageByName(n)
+}
+func (harnessTypes) FindMessageByURL(u string) (protoreflect.MessageType, error) {
+	extSchema()
+	if t, err := extTypes.FindMessageByURL(u); err == nil {
+		return t, nil
+	}
+	return protoregistry.GlobalTypes.FindMessageByURL(u)
+}
+func (harnessTypes) FindExtensionByName(n protoreflect.FullName) (protoreflect.ExtensionType, error) {
+	extSchema()
+	if t, err := extTypes.FindExtensionByName(n); err == nil {
+		return t, nil
+	}
+	return protoregistry.GlobalTypes.FindExtensionByName(n)
+}
+func (harnessTypes) FindExtensionByNumber(m protoreflect.FullName, f protoreflect.FieldNumber) (protoreflect.ExtensionType, error) {
+	extSchema()
+	if t, err := extTypes.FindExtensionByNumber(m, f); err == nil {
+		return t, nil
+	}
+	return protoregistry.GlobalTypes.FindExtensionByNumber(m, f)
+}
+
+// registerExtGlobally puts the proto2 file and its extension types into the global registries, the way
+// linked-in generated code would (supply routes global / shadowed, grpcwrap).
+func registerExtGlobally() {
+	fd := extSchema()
+	if err := protoregistry.GlobalFiles.RegisterFile(fd); err != nil {
+		panic(err)
+	}
+	msgs := fd.Messages()
+	for i := 0; i < msgs.Len(); i++ {
+		if err := protoregistry.GlobalTypes.RegisterMessage(dynamicpb.NewMessageType(msgs.Get(i))); err != nil {
+			panic(err)
+		}
+	}
+	xs := fd.Extensions()
+	for i := 0; i < xs.Len(); i++ {
+		if err := protoregistry.GlobalTypes.RegisterExtension(dynamicpb.NewExtensionType(xs.Get(i))); err != nil {
+			panic(err)
+		}
+	}
+}
 
 func verifSchema() protoreflect.FileDescriptor {
 	schemaOnce.Do(func() {
-		fd, err := protodesc.NewFile(schemaProto(), protoregistry.GlobalFiles)
+		fd, err := protodesc.NewFile(schemaProto(), schemaDeps{})
 		if err != nil {
 			panic(fmt.Errorf("schema: %w", err))
 		}
